@@ -7,6 +7,7 @@ EMITTERS = {
     P + 'emit_constant_op': 'constant_op', P + 'emit_variable_op': 'variable_op', P + 'emit_jump': 'jump',
     P + 'emit_loop': 'loop', P + 'emit_constant': 'constant', P + 'emit_return': 'return',
     P + 'emit_scope_end': 'scope_end',
+    'yarel::chunk::Chunk::write': 'byte',      # the primitive itself, when a helper that used it was folded into its caller
 }
 
 
@@ -58,6 +59,59 @@ def operand_opcode(w, f, bi, o, defs=None):
     return None, None
 
 
+_raw_writers = {}
+
+
+def raw_writer(w, name, depth=0):
+    """a workspace function that is not one of the named emitters but appends a fixed number of bytes that are not opcodes (a helper that
+    encodes an operand: `Chunk::write_operand(value, line)`): returns that number (1 or 2), else None. Decided from the helper's own body:
+    the same count of Chunk::write / raw emit_byte calls on every path, none of them given an OpCode."""
+    key = (id(w), name)
+    if key in _raw_writers:
+        return _raw_writers[key]
+    _raw_writers[key] = None
+    g = w.fns.get(name or '')
+    if g is None or depth > 2 or name in EMITTERS or not g.file.endswith(('chunk.rs', 'compiler.rs')) or name.endswith('Chunk::write'):
+        return None
+    counts = {}
+    for bi, t in g.calls():
+        n = callee_name(t)
+        if n == 'yarel::chunk::Chunk::write':
+            opn, _ = operand_opcode(w, g, bi, t['args'][1])
+            if opn is not None or is_opcode_cast(g, bi, t['args'][1], block_defs(g, bi)):
+                return None
+            counts[bi] = 1
+        elif EMITTERS.get(n) == 'byte':
+            opn, _ = operand_opcode(w, g, bi, t['args'][1])
+            if opn is not None:
+                return None
+            counts[bi] = 1
+        elif EMITTERS.get(n):
+            return None
+        else:
+            k = raw_writer(w, n, depth + 1)
+            if k:
+                counts[bi] = k
+    if not counts:
+        return None
+    totals = set()
+
+    def walk(b, acc, seen):
+        if b in seen or len(totals) > 1:
+            return
+        n = acc + counts.get(b, 0)
+        if g.blocks[b]['t']['t'] == 'return':
+            totals.add(n)
+            return
+        for s_ in g.succs()[b]:
+            if s_ in g.normal_blocks():
+                walk(s_, n, seen | {b})
+    walk(0, 0, frozenset())
+    if len(totals) == 1 and list(totals)[0] in (1, 2):
+        _raw_writers[key] = list(totals)[0]
+    return _raw_writers[key]
+
+
 def emissions(w, f):
     """[(block, kind, opcode-name-or-None, details)] for every emitter call in f, in block order"""
     out = []
@@ -65,6 +119,9 @@ def emissions(w, f):
         name = callee_name(t)
         kind = EMITTERS.get(name)
         if kind is None:
+            k = raw_writer(w, name)
+            if k:
+                out.append((bi, 'byte' if k == 1 else 'bytes', None, {'raw': None, 'cast': False, 'helper': name}))
             continue
         defs = block_defs(f, bi)
         args = t['args'][1:]
